@@ -217,8 +217,8 @@ const fn m(name: &'static str) -> Meth {
 
 // Basic --------------------------------------------------------------------------------------
 
-pub const BASIC: [Meth; 9] = [
-    m("b_get"), m("b_add"), m("b_two"), Meth { name: "b_default", logged_as: "b_add" }, m("b_unsafe"), m("b_pin"), m("b_pin_mut"), m("b_c_mut"), m("b_where"),
+pub const BASIC: [Meth; 10] = [
+    m("b_get"), m("b_add"), m("b_two"), Meth { name: "b_default", logged_as: "b_add" }, m("b_unsafe"), m("b_pin"), m("b_pin_mut"), m("b_c_mut"), m("b_where"), m("b_sub"),
 ];
 
 pub fn call_basic<O: Basic>(rv: &mut Recv<O>, mi: usize, a: &mut A) -> Ret {
@@ -233,6 +233,7 @@ pub fn call_basic<O: Basic>(rv: &mut Recv<O>, mi: usize, a: &mut A) -> Ret {
         6 => Ret::U(unsafe { Pin::new_unchecked(need_mut!(rv)) }.b_pin_mut(a.u(0))),
         7 => Ret::I(need_mut!(rv).b_c_mut(a.i32(0)) as i64),
         8 => Ret::U(need_mut!(rv).b_where(a.u(0))),
+        9 => Ret::U(need_mut!(rv).b_sub(a.u(0), a.u(1))),
         _ => Ret::NoSuchMethod,
     }
 }
@@ -303,9 +304,9 @@ pub fn call_readonly<O: ReadOnly + ?Sized>(rv: &mut Recv<O>, mi: usize, a: &mut 
 
 // Shapes -------------------------------------------------------------------------------------
 
-pub const SHAPES: [Meth; 19] = [
+pub const SHAPES: [Meth; 22] = [
     m("s_slice"), m("s_slice_u64"), m("s_slice_mut"), m("s_str"), m("s_opt"), m("s_opt_ref"), m("s_mixed"), m("s_res"), m("s_into"), m("s_struct"),
-    m("s_cb"), m("s_iter"), m("s_ret_str"), m("s_ret_slice"), m("s_ret_mut_slice"), m("s_ret_opt_ref"), m("s_str_to_str"), m("s_vec"), m("s_mut_ref"),
+    m("s_cb"), m("s_iter"), m("s_ret_str"), m("s_ret_slice"), m("s_ret_mut_slice"), m("s_ret_opt_ref"), m("s_str_to_str"), m("s_vec"), m("s_mut_ref"), m("s_two_slices"), m("s_opt_then_slice"), m("s_two_mut"),
 ];
 
 /// Source iterator for CIterator arguments: counts how far it was advanced.
@@ -462,6 +463,33 @@ pub fn call_shapes<O: Shapes + ?Sized>(rv: &mut Recv<O>, mi: usize, a: &mut A) -
             let v = CVec::from(a.words(0));
             let r = o.s_vec(v);
             Ret::V64(r.iter().copied().collect())
+        }
+        19 => {
+            let o = need_mut!(rv);
+            let (va, vb) = (a.bytes(0), a.bytes(1));
+            let (pa, pb) = (a.part(2, &va), a.part(3, &vb));
+            a.note(pa);
+            a.note(pb);
+            Ret::I(o.s_two_slices(pa, pb))
+        }
+        20 => {
+            let o = need_mut!(rv);
+            let opt = if a.flag(1) { Some(a.u(0)) } else { None };
+            let w = a.words(2);
+            let w = a.part(3, &w);
+            let t = a.string(1);
+            a.note(w);
+            a.note_str(&t);
+            Ret::U(o.s_opt_then_slice(opt, w, &t))
+        }
+        21 => {
+            let o = need_mut!(rv);
+            let mut v = a.bytes(0);
+            let mut n = a.u(1) as u32;
+            a.note(&v);
+            a.sent.push((&mut n as *mut u32 as usize, 1));
+            let r = o.s_two_mut(&mut v, &mut n);
+            Ret::Multi(vec![Ret::U(r as u64), Ret::Bytes(v), Ret::U(n as u64)])
         }
         18 => {
             let o = need_mut!(rv);
